@@ -40,7 +40,7 @@ var (
 	blockAlphabet   = []uint64{10, 60000, params.MaxGrindIncreaseForkBlock.Uint64() - 1, params.MaxGrindIncreaseForkBlock.Uint64(), params.MaxCodeSizeForkHeight - 1, params.MaxCodeSizeForkHeight, 4000000}
 	sizeAlphabet    = []*big.Int{big.NewInt(0), big.NewInt(1 << 20), new(big.Int).Lsh(big.NewInt(1), 40)}
 	baseFeeAlphabet = []*big.Int{big.NewInt(1), big.NewInt(7), big.NewInt(1e9)}
-	contractBals    = []*big.Int{big0, big.NewInt(1), new(big.Int).Mul(big.NewInt(50), e18), new(big.Int).Mul(big.NewInt(1000), e18), new(big.Int).Mul(big.NewInt(12), e18)}
+	contractBals    = []*big.Int{new(big.Int).Mul(big.NewInt(50), e18), new(big.Int).Mul(big.NewInt(1000), e18), new(big.Int).Mul(big.NewInt(12), e18), big0, big.NewInt(1), new(big.Int).Mul(big.NewInt(300), e18)}
 	txKinds         = []string{"call", "call", "call", "call", "create", "create", "etx-in", "etx-in", "ext", "lockup", "suicide", "transfer"}
 	txValues        = []*big.Int{big0, big0, big.NewInt(1), e18, new(big.Int).Mul(big.NewInt(20), e18)}
 )
@@ -836,6 +836,9 @@ func runBytecode(t *rapid.T, prop string) {
 	}
 	if a.err == nil && len(a.receipt.OutboundEtxs) > 0 {
 		g.Inc("probe.etx_committed")
+	}
+	if a.err == nil && a.receipt.Status == types.ReceiptStatusSuccessful && tc.innerEtxDropped {
+		g.Inc("probe.etx_reverted_in_inner_frame_of_successful_tx")
 	}
 	if c.enforce {
 		g.Inc("probe.access_list_enforced")
